@@ -996,7 +996,11 @@ Print Assumptions C09_children_follow_their_revisions_unique.
 (* claim_revisions is NOT built from claim_one: it has its own claim_rev_one over
    update_with_retries (typed client, namespace of the parent, EGone on a uid mismatch).
    The protocol proofs of C04Proofs.v are redone for it; the notions parent_get, passed,
-   adopt_edit, release_edit, decision, inv are the ones of C04Proofs.v. *)
+   adopt_edit, decision, inv are the ones of C04Proofs.v.  The release edit is its own:
+   revisions are written through the typed client, which omits metadata.ownerReferences
+   when the release leaves no owner reference (set_owner_refs_typed). *)
+Definition release_edit_typed (parent cur : json) : json :=
+  set_owner_refs_typed cur (remove_owner_ref (get_owner_refs cur) (get_uid parent)).
 
 (* what update_with_retries can send: GETs of the revision, and PUTs of [f cur] for a
    [cur] the server returned to one of those GETs with the expected uid *)
@@ -1112,7 +1116,7 @@ End RevClaim.
 Definition C04_revision_phi (c : ccfg) (parent : json) (sel : selector) (all : list json) (h0 h : hist) (cl : call) : Prop :=
   cl = parent_get c parent \/
   exists o, In o all /\
-    ((decision parent sel o = ClRelease /\ rev_edit_call parent (release_edit parent) o h cl) \/
+    ((decision parent sel o = ClRelease /\ rev_edit_call parent (release_edit_typed parent) o h cl) \/
      (decision parent sel o = ClAdopt /\ rev_edit_call parent (adopt_edit c parent) o h cl /\
       exists new, h = new ++ h0 /\ passed c parent new)).
 
@@ -1141,7 +1145,7 @@ Definition rinv (c : ccfg) (parent : json) (N : hist -> Prop) (h0 h : hist) (st 
 Definition PhiR_since (c : ccfg) (parent : json) (sel : selector) (N : hist -> Prop) (h0 : hist) (o : json)
            (h : hist) (cl : call) : Prop :=
   (cl = parent_get c parent /\ N h) \/
-  (decision parent sel o = ClRelease /\ rev_edit_call parent (release_edit parent) o h cl) \/
+  (decision parent sel o = ClRelease /\ rev_edit_call parent (release_edit_typed parent) o h cl) \/
   (decision parent sel o = ClAdopt /\ rev_edit_call parent (adopt_edit c parent) o h cl /\
    passed_since c parent h0 h).
 
@@ -1275,7 +1279,7 @@ Corollary C04_revision_adopt_after_recheck_in_run c parent sel all (e : env) h0 
   fst (run (foldM (claim_rev_one c parent sel) all (None, [], false)) e h0) =
     post ++ (rev_put parent o (adopt_edit c parent cur), a) :: pre ++ h0 ->
   (forall o', In o' all -> decision parent sel o' = ClRelease ->
-              forall cur', rev_put parent o' (release_edit parent cur') <> rev_put parent o (adopt_edit c parent cur)) ->
+              forall cur', rev_put parent o' (release_edit_typed parent cur') <> rev_put parent o (adopt_edit c parent cur)) ->
   exists fresh, In (parent_get c parent, AObj fresh) pre /\
                 get_uid fresh = get_uid parent /\ is_deleting fresh = false.
 Proof.
@@ -1433,6 +1437,25 @@ Proof.
   apply String.eqb_neq. tauto.
 Qed.
 
+(* the typed client: with no owner reference left the key is removed, and the object has none *)
+Lemma get_owner_refs_removed m : get_owner_refs (JObj (nested_remove m ["metadata"; "ownerReferences"])) = [].
+Proof.
+  unfold get_owner_refs. cbn [obj_map]. rewrite nremove2, nget2.
+  destruct (alookup "metadata" m) as [mv|] eqn:E; [|rewrite E; reflexivity].
+  destruct mv; rewrite ?E; try reflexivity.
+  rewrite alookup_aset_same, alookup_aremove, eqb_refl'. reflexivity.
+Qed.
+
+Lemma release_edit_typed_not_ours parent cur :
+  controlled_by (release_edit_typed parent cur) (get_uid parent) = false.
+Proof.
+  pose proof (release_edit_not_ours parent cur) as Hold. unfold release_edit in Hold.
+  unfold release_edit_typed, set_owner_refs_typed.
+  destruct (remove_owner_ref (get_owner_refs cur) (get_uid parent)) as [|r l]; [|exact Hold].
+  destruct cur as [| | | | | | |m]; try exact Hold.
+  unfold controlled_by, controller_of. rewrite get_owner_refs_removed. reflexivity.
+Qed.
+
 Theorem C04_revision_adoption_in_run c k parent (e : env) h0 post q a pre :
   fst (run (claim_revisions c k parent) e h0) = post ++ (CApi q, a) :: pre ++ h0 ->
   q_res q = rev_res -> q_verb q = VUpdate ->
@@ -1452,7 +1475,7 @@ Proof.
   destruct (Hall _ _ _ _ Hn) as (sel & Hsel & [Hc|(o & Hin & [[Hd Hc]|(Hd & Hc & new' & Heq & Hp)])]).
   - injection Hc as ->. discriminate Hverb.
   - exfalso. destruct Hc as [Hc|(cur & _ & _ & Hc)]; injection Hc as ->; [discriminate Hverb|].
-    cbn [q_body rq_put] in Hours. rewrite release_edit_not_ours in Hours. discriminate.
+    cbn [q_body rq_put] in Hours. rewrite release_edit_typed_not_ours in Hours. discriminate.
   - apply app_inv_tail in Heq. subst new'.
     apply claim_adopt_iff in Hd. destruct Hd as (Hco & Hpd & _ & Hod).
     split; [exact Hpd|]. split; [|exact Hp].
@@ -1489,7 +1512,7 @@ Definition C04_revision_sync_phi (c : ccfg) (k : cache) (parent : json) (h : his
   has_hook h = false -> is_rev_update cl ->
   exists p1 sel o,
     parent_version c parent h p1 /\ revision_selector c p1 = Some sel /\ In o (rev_candidates k p1) /\
-    ((decision p1 sel o = ClRelease /\ rev_edit_call p1 (release_edit p1) o h cl) \/
+    ((decision p1 sel o = ClRelease /\ rev_edit_call p1 (release_edit_typed p1) o h cl) \/
      (decision p1 sel o = ClAdopt /\ rev_edit_call p1 (adopt_edit c p1) o h cl /\ passed c p1 h)).
 
 (* generic rules *)
@@ -1706,7 +1729,7 @@ Proof.
   exists p1. split; [exact Hv|]. intros Hours.
   destruct Hcase as [[Hd Hc]|(Hd & Hc & Hp)].
   - exfalso. destruct Hc as [Hc|(cur & _ & _ & Hc)]; injection Hc as ->; [discriminate Hverb|].
-    cbn [q_body rq_put] in Hours. rewrite release_edit_not_ours in Hours. discriminate.
+    cbn [q_body rq_put] in Hours. rewrite release_edit_typed_not_ours in Hours. discriminate.
   - apply claim_adopt_iff in Hd. destruct Hd as (Hco & Hpd & _ & _).
     split; [exact Hpd|]. split; [|exact Hp].
     exists o. split; [exact Hin|]. split; [exact Hco|].
